@@ -394,10 +394,36 @@ def stream_access(ctx, w):
                         'impl': obs['k'], 'model': mo['outcome']['k']})
 
 
+def run_corpus(ctx, w):
+    """regressions first: the witnesses of the theorems that were false before the fixes"""
+    import glob
+    from harness import access
+    from vlib import core
+    fns = {f['name']: f for f in ctx.driver().call('access.fns', {})}
+    for path in sorted(glob.glob(os.path.join(core.VERIF, 'corpus', 'C15', '*.json'))):
+        with open(path) as fh:
+            r = json.load(fh)['replay']
+        if r.get('stream') != 'access':
+            continue       # REST regressions are part of the rest stream's fixed case list
+        t = r['target']
+        T = [x for x in w.base['resources'] if x['t'] == t['t'] and x['n'] == t['n'] and x['p'] == t['p']]
+        if not T or r['fn'] not in fns:
+            ctx.broken_tie('corpus', os.path.basename(path), 'corpus case no longer resolvable')
+            continue
+        case = {'fn': fns[r['fn']], 'actor': r['actor'], 'T': T[0], 'form': r['form'],
+                'variant': r['variant'], 'ins': None, 'filters': r.get('filters')}
+        args, kwargs, margs = make_call(w, case)
+        obs, after = w.run_case(case['actor'], r['fn'], args, kwargs, after=True)
+        ctx.evaluated('corpus', os.path.basename(path), nontrivial=True)
+        ctx.count('corpus', '%s:%s' % (r['fn'], obs['k']))
+        monitor(ctx, case, obs, after, w)
+
+
 def correspond(ctx):
     from harness import access
     from harness import access_extra
     w = access.get_world()
+    run_corpus(ctx, w)
     stream_access(ctx, w)
     access_extra.stream_members(ctx, w)
     access_extra.stream_expr(ctx, w)
